@@ -203,6 +203,10 @@ pub enum GOp<O> {
     Abort(usize),
     Detach(usize),
     IsFinished(usize),
+    /// async families: poll the JoinHandle of task `c` once (registering this task's waker) and put
+    /// it back: Bool(false) while the task is unfinished, Joined(..) if it had finished (the handle
+    /// is then used up).  Another task may await the handle afterwards ("futures moved between tasks").
+    PollJoin(usize),
     Op(O),
 }
 
@@ -266,6 +270,7 @@ pub fn with_high_ids<F: Family>(p: &Program<F>, k: usize) -> Program<F> {
             GOp::Abort(c) => GOp::Abort(shift(*c)),
             GOp::Detach(c) => GOp::Detach(shift(*c)),
             GOp::IsFinished(c) => GOp::IsFinished(shift(*c)),
+            GOp::PollJoin(c) => GOp::PollJoin(shift(*c)),
             GOp::ScopeBegin(cs) => GOp::ScopeBegin(cs.iter().map(|c| shift(*c)).collect()),
             other => other.clone(),
         }
@@ -507,6 +512,21 @@ async fn run_task<F: Family>(ctx: Arc<SS<Ctx<F>>>, t: usize) -> u32 {
                 let b = if alt_api() { h.abort_handle().is_finished() } else { h.is_finished() };
                 GRes::Bool(b)
             }
+            GOp::PollJoin(ch) => {
+                let mut h = c.ahandles.borrow_mut()[*ch].take().expect("poll without handle");
+                let r = std::future::poll_fn(|cx| std::task::Poll::Ready(std::future::Future::poll(std::pin::Pin::new(&mut h), cx))).await;
+                match r {
+                    std::task::Poll::Ready(Ok(v)) => {
+                        assert_eq!(v, thread_ret(*ch), "joined value");
+                        GRes::Joined(true)
+                    }
+                    std::task::Poll::Ready(Err(_)) => GRes::Joined(false),
+                    std::task::Poll::Pending => {
+                        c.ahandles.borrow_mut()[*ch] = Some(h);
+                        GRes::Bool(false)
+                    }
+                }
+            }
             GOp::Op(o) => GRes::R(F::exec_async(&c.objs, &mut locals, t, o).await),
             GOp::ScopeBegin(_) | GOp::ScopeEnd => unreachable!("scope in an async program"),
         };
@@ -615,7 +635,7 @@ fn run_ops<F: Family>(
                 i = end + 1;
             }
             GOp::ScopeEnd => unreachable!("ScopeEnd is consumed by its ScopeBegin"),
-            GOp::Abort(_) | GOp::Detach(_) | GOp::IsFinished(_) => unreachable!("async-only operation in a thread program"),
+            GOp::Abort(_) | GOp::Detach(_) | GOp::IsFinished(_) | GOp::PollJoin(_) => unreachable!("async-only operation in a thread program"),
         }
     }
 }
@@ -1111,6 +1131,10 @@ fn g_steps_raw<F: Family>(p: &Program<F>, s: &GState<F>, t: usize, strict: bool)
         GOp::IsFinished(c) => {
             let f = s.th[*c].st == St::Finished;
             out.push((false, Label::Ret(pc, GRes::Bool(f)), done(s, GRes::Bool(f))));
+        }
+        GOp::PollJoin(c) => {
+            let r = if s.th[*c].st == St::Finished { GRes::Joined(s.th[*c].flags & CANCELLED == 0) } else { GRes::Bool(false) };
+            out.push((false, Label::Ret(pc, r.clone()), done(s, r)));
         }
         GOp::ScopeBegin(children) => {
             // scoped spawns happen one by one (each is a scheduling point), then the body starts
@@ -1968,6 +1992,7 @@ impl<O: Debug> Debug for OpDbg<'_, O> {
             GOp::Abort(_) => write!(f, "Abort"),
             GOp::Detach(_) => write!(f, "Detach"),
             GOp::IsFinished(_) => write!(f, "IsFinished"),
+            GOp::PollJoin(_) => write!(f, "PollJoin"),
         }
     }
 }
